@@ -149,6 +149,7 @@ func (u *UnitGen) execInstr(fr *Frame, st *State, instr ssa.Instruction) {
 		}
 		r := u.alloc(st, fmt.Sprintf("f%d_%s_new", fr.id, in.Name()))
 		u.nonNil[r.S] = true
+		u.fresh0[r.S] = true
 		fr.vals[in] = r
 		if in.Comment != "" {
 			fr.localNames[in.Comment] = in
@@ -156,7 +157,10 @@ func (u *UnitGen) execInstr(fr *Frame, st *State, instr ssa.Instruction) {
 		u.store(st, &Addr{ref: r, objT: et, valT: et}, reg.Zero(et))
 	case *ssa.Store:
 		a := u.addrOf(fr, st, in.Addr)
-		u.nilCheck(st, a, "store")
+		if len(a.path) == 0 {
+			u.nilCheck(st, a, "store")
+		}
+		u.lockCheck(fr, st, a, true, nil)
 		v := u.val(fr, st, in.Val)
 		if cl, ok := fr.closures[in.Val]; ok {
 			u.closureAt[addrKey(a)] = cl
@@ -213,6 +217,7 @@ func (u *UnitGen) execInstr(fr *Frame, st *State, instr ssa.Instruction) {
 		k := u.val(fr, st, in.Key)
 		v := u.val(fr, st, in.Value)
 		u.oblige(st, "safety", u.obName("safety:nilmap"), "assignment to entry in nil map", Not(Eq(m, IntN(0))))
+		u.lockCheckMapWrite(fr, st, in.Map)
 		u.mapStore(st, in.Map.Type(), m, k, v)
 	case *ssa.MakeMap:
 		r := u.alloc(st, fmt.Sprintf("f%d_%s_map", fr.id, in.Name()))
@@ -321,6 +326,7 @@ func (u *UnitGen) execInstr(fr *Frame, st *State, instr ssa.Instruction) {
 		switch in.X.Type().Underlying().(type) {
 		case *types.Map:
 			m := u.val(fr, st, in.X)
+			u.lockCheckMapRead(fr, st, in.X)
 			dk, _, ds, _ := u.mapKeys(in.X.Type())
 			_ = dk
 			vk := fmt.Sprintf("V:f%d.%s", fr.id, in.Name())
@@ -369,7 +375,10 @@ func (u *UnitGen) execUnOp(fr *Frame, st *State, in *ssa.UnOp) {
 	switch in.Op {
 	case token.MUL: // load
 		a := u.addrOf(fr, st, in.X)
-		u.nilCheck(st, a, "load")
+		if len(a.path) == 0 {
+			u.nilCheck(st, a, "load")
+		}
+		u.lockCheck(fr, st, a, false, in)
 		v := u.load(st, a)
 		u.setVal(fr, in, v)
 		v = fr.vals[in]
@@ -621,6 +630,7 @@ func (u *UnitGen) execLookup(fr *Frame, st *State, in *ssa.Lookup) {
 	}
 	m := u.val(fr, st, in.X)
 	k := u.val(fr, st, in.Index)
+	u.lockCheckMapRead(fr, st, in.X)
 	dom := u.mapDom(st, in.X.Type(), m)
 	vals := u.mapVals(st, in.X.Type(), m)
 	present := And(Not(Eq(m, IntN(0))), Select(dom, k))
